@@ -201,6 +201,14 @@ def end_index_helpers(c):
         if not (method or free):
             continue
         ms = [n for n in walk(b["body"]) if kind(n) == "Match" and n.get("src") == "match"]
+        if not ms:
+            # `let QueueableToken::Start { end_token_index, .. } = self.queue[self.start] else { unreachable!() };`
+            les = [n for n in walk(b["body"]) if kind(n) == "Let" and n.get("els") is not None and n.get("init") is not None
+                   and QT + "::Start" in hirq.pat_variants(n["pat"])]
+            if len(les) == 1:
+                tail = hirq.tail_leaves(b["body"])
+                ms = [{"k": "Match", "src": "match", "scrut": les[0]["init"],
+                       "arms": [{"pat": les[0]["pat"], "body": tail[0] if len(tail) == 1 else {}}]}]
         if len(ms) != 1:
             continue
         scr = peel(ms[0]["scrut"])
@@ -535,6 +543,9 @@ def count(rep, c, sfx):
         r.lost("pairs::new")
     else:
         inc = [n for n in walk(new["body"]) if kind(n) == "AssignOp" and n["op"] == "+=" and hirq.lit_value(n["r"]) == 1]
+        # or counts the hops of an iterator whose closure moves the cursor (`iter::from_fn(|| ..cursor = ..).count()`)
+        inc += [n for n in walk(new["body"]) if kind(n) == "MethodCall" and n["m"] == "count" and any(
+            kind(y) == "Closure" and any(kind(z) == "Assign" for z in walk(y)) for y in walk(n["recv"]))]
         r.instance("pairs::new", where(new["body"]), "%d counting increments" % len(inc))
         if not inc:
             r.violation("pairs::new", where(new["body"]), "constructor no longer counts the pairs of the window")
